@@ -42,6 +42,12 @@ func withWatchdog(d time.Duration, f func()) bool {
 func runC18(c *ctx) {
 	c.res.Rule = "stress: consecutive Parallelize/Search calls with instant tasks for w in {1,2,4,16}, c in {0,1,2,3,17} under a watchdog, then a worker-availability probe; " +
 		"model: pool.run results for the same (w,c) and pool.explore over all interleavings for small (w,c); non-trivial = c>0"
+	// schedule-level lockstep of the real goroutines with the model (c18_lockstep.go; uses the yield hooks in pkg/pool)
+	if c.replay != "" {
+		c.c18Lockstep()
+		return
+	}
+	defer c.c18Lockstep()
 	calls := 20000
 	if c.thorough() {
 		calls = 60000
